@@ -153,6 +153,11 @@ def prog_event(tid, o, i, fl, placement):
             fn, plain_target = g['w'], g['w']
             codes = {fn.__code__} | {c for c in fn.__code__.co_consts if hasattr(c, 'co_code')}
             nomodel = True
+        elif base in ('auto_nested_def_own_stars', 'auto_nested_async_own_stars'):
+            fn, plain_target = g['w'], g['w']
+            codes = {fn.__code__}
+            nomodel = True
+            declared, agree = {'tag': 'valueerror'}, 'ps'       # nothing of the wrapper's is forwarded: the plain signature
         elif base == 'auto_class_call':
             fn, plain_target = g['K'], g['K']
             codes = {g['K'].__call__.__code__, g['K'].__init__.__code__}
